@@ -77,6 +77,7 @@ T = {
          "trusted: Coq kernel; no axioms; lock-step scheduler; " + CORR, "Rocq/Coq proof (invariant + termination from every reachable state) + translation tie of the worker loops + stop injection at every scheduling point"),
  "C15": ("cli", "proof", "duration formatter: field decomposition/recomposition for all M>=0, %S rounding bound, %I = truncation, template parser accepts exactly well-formed templates; option/default/keyword tables extracted from cmdline.py and "
          "cmdline_util.py on every run and compared with the documented tables; partial: argparse itself is trusted, {timestamp} not compared, -E/-p/-C/-I/-F out of reach",
+         "option / keyword tables extracted from cmdline.py on every run = Cli/Options.v (CliTie.v); the -j / -O guard and the record flag of make_kwargs evaluated symbolically on every run = Cli/Guards.v (TieGuards.v); the field arithmetic of the %h%m%s%i formatter translated = Cli/Format.v (TieFmt.v); "
          "end-to-end: auditok.cmdline.main(argv) run in-process on files and stdin over random option vectors, stdout/exit status/files compared with the model rendering of split_model under the resolved parameters",
          "trusted: Coq kernel; " + REALS + " (only %S rounding); AST table extraction harness/py2coq/cli.py; " + CORR, "Rocq/Coq proof (formatter arithmetic) + table extraction + end-to-end correspondence"),
  "C16": ("region", "proof", "getitem = Python slice of the sample list for all bounds (option Z, negative, huge), whole samples, views through int()/round() with error bounds",
